@@ -26,7 +26,8 @@ class Backend(object):
         self.protocol_errors = []    # backend calls that PortAudio would refuse
         self.owner = sched._cur      # set again by the run (see props/c17.py)
         # fault injection (props/c17.py): {"write": {stream index: number of writes that succeed
-        # before one raises}, "open": [ordinals of the pa.open calls that raise]}
+        # before one raises}, "open": [ordinals of the pa.open calls that raise], "terminate": True
+        # (pa.terminate raises after having terminated), "close": [stream indices whose close raises]}
         self.faults = {}
         self.open_calls = 0
         self.apis = []               # host API infos (dicts) for AudioIO(api=...)
@@ -88,6 +89,9 @@ class FakeStream(object):
     def close(self):
         def eff():
             self._check_alive("close")
+            if self.index in self.be.faults.get("close", ()):
+                self.calls.append("close!")
+                self.be.injected("close")    # the stream stays open (and listed in pa._streams)
             self.calls.append("close")
             self.state = "closed"
             self._parent._streams.remove(self)
@@ -160,6 +164,8 @@ class PyAudio(object):
             if self._streams:
                 b.protocol_errors.append("pa.terminate with %d open streams" % len(self._streams))
             self._streams = set()
+            if b.faults.get("terminate"):
+                b.injected("terminate")      # the backend is terminated all the same; the call raises
         return sched.backend_op("pa.terminate", eff, self.be.owner)
 
     def get_host_api_count(self):
